@@ -63,11 +63,11 @@ def schemata(lf):
     FWI = f"{HC}['firewall'].items()"
     FK, FV = f"each({FWI})[0]", f"each({FWI})[1]"
     f0, f1 = f"eval({FK})[0]", f"eval({FK})[1]"
-    SENS = f"{{eval({SK}): {SV}}}"
+    SENS = f"{{eval({SK}): {SV} for each({SHI})}}"
     KEYS = "enumerate(Y['sensitive_hosts'].keys())"
 
     def lenpos(x):
-        return alt(A(f"0<len({x})"), f_not(A(f"len({x})<1")))
+        return A(f"0<len({x})")
 
     def nodup(x):
         return A(f"len({x})==len(set({x}))")
